@@ -151,10 +151,10 @@ func classifyDiff(d Diff, sh Shape) string {
 // reports, judged by the error text and the shapes present in the documents.
 func knownErrorClass(sh Shape, msg string) string {
 	switch {
-	case sh.PercentName && (strings.Contains(msg, "invalid URL escape") || strings.Contains(msg, "can't find value")):
-		return "percent-in-name-unescaped-twice"
 	case sh.AbsRootRef && strings.Contains(msg, `can't find value for "c07/root.json#`):
 		return "absolute-path-ref-to-root-taken-for-pointer"
+	case sh.PercentName && (strings.Contains(msg, "invalid URL escape") || strings.Contains(msg, "can't find value")):
+		return "percent-in-name-unescaped-twice"
 	case sh.SameNameTargets && (strings.Contains(msg, "name conflict") || strings.Contains(msg, "sum types with same names")):
 		// Go type names of referenced components come from the last pointer token only
 		return "same-named-components-in-two-documents-collide"
@@ -374,6 +374,18 @@ func checkTransparency(c Case) Result {
 					cl = "header-ref-cached-name"
 				}
 				add(cl, "generated struct types declare a field twice: with references [%s], inlined [%s]", a, b)
+			}
+		}
+	}
+	// outcome of the structured shapes, for the evidence
+	for _, t := range c.Tags {
+		for _, g := range []string{"excursion:", "sumtree:"} {
+			if strings.HasPrefix(t, g) {
+				for _, l := range res.Labels {
+					if strings.HasPrefix(l, "gen:both-") || l == "gen:classes-differ" || strings.HasPrefix(l, "parse:") {
+						res.label("%s => %s", t, l)
+					}
+				}
 			}
 		}
 	}
